@@ -682,7 +682,7 @@ def compare(ctx, w, spec, pop_seed, trace, steps):
         if op['k'] == 'get':
             if merr is None and not [y for y in m['yields'] if y is not None]: merr = 'ObjectNotFound'
             if res.get('nrows', 0) > 1 and res.get('queried'): merr = 'MultipleObjectsFoundError' if merr in (None, 'ObjectNotFound') else merr
-            if res.get('queried') != (m['ran'] >= 1 and m['err'] is None and (m['yields'][0] is None)) and rerr not in ('MultipleObjectsFoundError',):
+            if res.get('queried') != (len(m['yields']) >= 1 and m['yields'][0] is None):
                 ctx.divergence('cache lookup outcome differs (database consulted or not)', hist(i), model=m['yields'], impl=res.get('queried')); return
         if (merr or None) != (rerr or None):
             ctx.divergence('outcome of the call differs', hist(i), model=merr, impl=rerr); return
